@@ -50,9 +50,16 @@ let advance (lineno : int) (s : M.hcstate ref) (i : int) (target : string) (flog
            | None, false -> ()
            | _ -> mismatch "tbl" lineno "thread %d: the function was given (%b,%s), the model's table holds %s" (i - off) found old (show_opt cur));
           count "functions_checked";
-          step 0; step 0; step 0;   (* update, unlock, add to the size counter *)
-          if target = "D" then (step 0; result := "D") else (step 1; result := "P35"; count "shrink_attempts")
+          step 0; step 0;   (* update, unlock *)
+          if target = "P43" then (result := "P43"; count "parked_before_size_update")
+          else begin
+            step 0;         (* add to the size counter *)
+            if target = "D" then (step 0; result := "D") else (step 1; result := "P35"; count "shrink_attempts")
+          end
         | None -> step 1; result := "P35"; count "grow_before_update")
+     | M.Wadd ->
+       step 0;
+       if target = "D" then (step 0; result := "D") else (step 1; result := "P35"; count "shrink_attempts")
      | M.W5 | M.W6 -> mismatch "tbl" lineno "thread %d rests at a transient position" (i - off); result := "?"
      | M.R0 ->
        if M.resizing !s then (step 0; result := "C")
